@@ -37,6 +37,12 @@ for _j in _JUNK:
         CRAFTED.append((_tmpl % _j).encode("utf-8"))
 
 
+for _tail in (b"\xc3", b"\xe2\x82", b"\xf0\x9f\x98", b"\xe4", b"\xf0", b"\xf0\x9f"):
+    CRAFTED.append(b'fn f() { info!("ok"); }\n// Gr' + _tail)
+    CRAFTED.append(b'info!("cut ' + _tail)
+    CRAFTED.append(_tail)
+
+
 def shape(data):
     out = []
     for ch in data.decode("utf-8", "replace")[:60]:
@@ -225,8 +231,12 @@ def skip_work(job):
     rnd = core.rng_for("c17skip", seed, i)
     res = {"evaluations": 2, "nontrivial": [], "violations": [], "samples": [], "inconclusive": {}, "counters": {}}
     badbytes = rnd.choice([b"\xff\xfe", b"caf\xe9", b"\xc3(", b"\xf0\x9f", b"\xed\xa0\x80"])
-    files = {"src/bad%d.rs" % i: b'fn b() { info!("' + badbytes + b'"); }\n', "src/good.rs": b'fn g() { info!("good one"); }\n',
-             "src/zz_last.rs": b'fn z() { warn!("also good"); }\n'}
+    badfile = b'fn b() { info!("' + badbytes + b'"); }\n'
+    if i % 3 == 2:
+        # the file ends in the middle of a multi-byte character (an interrupted copy, `head -c`)
+        badfile = b'fn b() { info!("whole"); }\n// Gr' + [b"\xc3", b"\xe2\x82", b"\xf0\x9f\x98"][(i // 3) % 3]
+    files = {"src/bad%d.rs" % i: badfile, "src/good.rs": b'fn g() { info!("good one"); }\n',
+             "src/zz_last.rs": b'fn z() { warn!("also good"); }\n', "src/aa_first.rs": b'fn a() { error!("good too"); }\n'}
     for mode in ("check", "edit"):
         rec, after = run_files(built, files, False, mode, 60)
         if bad(rec):
@@ -239,9 +249,9 @@ def skip_work(job):
             clause = "unreadable-file-not-reported"
         elif after["src/bad%d.rs" % i] != files["src/bad%d.rs" % i]:
             clause = "unreadable-file-modified"
-        elif mode == "edit" and (b"[ref: " not in after["src/good.rs"] or b"[ref: " not in after["src/zz_last.rs"]):
+        elif mode == "edit" and any(b"[ref: " not in after[g] for g in ("src/good.rs", "src/zz_last.rs", "src/aa_first.rs")):
             clause = "good-file-not-processed-next-to-unreadable-one"
-        elif mode == "check" and len([m for m in rec.missing() if "good.rs" in m[0] or "zz_last.rs" in m[0]]) != 2:
+        elif mode == "check" and len([m for m in rec.missing() if "good.rs" in m[0] or "zz_last.rs" in m[0] or "aa_first.rs" in m[0]]) != 3:
             clause = "good-file-not-checked-next-to-unreadable-one"
         if clause:
             res["violations"].append({"signature": "C17.%s|%s" % (clause, mode), "detail": {"stdout": rec.out[-400:], "exit": rec.ended()},
